@@ -165,11 +165,14 @@ def r4(ctx):
         am = ctx.repo.module(modname)
         init = am.get_class(clsname).methods.get("__init__")
         ctx.require(init is not None, f"{am.relpath}: {clsname}.__init__ vanished")
-        matcher = next((x for x in ast.walk(init) if isinstance(x, ast.FunctionDef) and x.name == "is_heartbeat_response"), None)
         cons = [c for c in ast.walk(init) if isinstance(c, ast.Call) and ctx.repo.qual(am, c.func) == f"{HEARTBEAT}.HeartbeatConfig"]
         ctx.require(cons, f"{am.relpath}: no HeartbeatConfig in {clsname}.__init__")
         rm = next((k.value for k in cons[0].keywords if k.arg == "response_match"), cons[0].args[1] if len(cons[0].args) > 1 else None)
-        ctx.check(matcher is not None and isinstance(rm, ast.Name) and rm.id == matcher.name, R, f"{clsname}:response_match", am, cons[0], "response_match is the local is_heartbeat_response", unparse(rm) if rm is not None else "missing")
+        # the matcher: a function nested in __init__ or defined at module level, whatever its name
+        matcher = None
+        if isinstance(rm, ast.Name):
+            matcher = next((x for x in ast.walk(init) if isinstance(x, ast.FunctionDef) and x.name == rm.id), None) or (am.functions.get(rm.id) if isinstance(am.functions.get(rm.id), ast.FunctionDef) else None)
+        ctx.check(matcher is not None, R, f"{clsname}:response_match", am, cons[0], "response_match is a plain function of this module (nested in __init__ or module level) that the rule can read", unparse(rm) if rm is not None else "missing")
         if matcher is None:
             continue
         ok, found = _matcher_ok(ctx, am, matcher)
